@@ -478,6 +478,100 @@ func (nz *decNormaliser) foldLocals(body *ast.BlockStmt) bool {
 	return changed
 }
 
+// relabelBreaks turns the unlabelled `break`s of an if-arm (they leave the enclosing loop) into `break loop`, so that
+// they keep that meaning inside a switch clause.
+func decRelabelBreaks(n ast.Node) {
+	ast.Inspect(n, func(m ast.Node) bool {
+		switch x := m.(type) {
+		case *ast.ForStmt, *ast.RangeStmt, *ast.SwitchStmt, *ast.TypeSwitchStmt, *ast.SelectStmt, *ast.FuncLit:
+			return false
+		case *ast.BranchStmt:
+			if x.Tok == token.BREAK && x.Label == nil {
+				x.Label = ast.NewIdent("loop")
+			}
+		}
+		return true
+	})
+}
+
+// canonIf: N7 / N8.  An if / else-if chain (no init statements) with at least two conditions is written as a tagless
+// switch; a tagless switch with one case and a default as if / else; `if a != b {X} else {Y}` and `if !c {X} else {Y}`
+// as `if a == b {Y} else {X}` / `if c {Y} else {X}`.
+func (nz *decNormaliser) canonIf(body *ast.BlockStmt) {
+	var conv func(s ast.Stmt) ast.Stmt
+	conv = func(s ast.Stmt) ast.Stmt {
+		switch x := s.(type) {
+		case *ast.IfStmt:
+			type arm struct {
+				cond ast.Expr
+				body *ast.BlockStmt
+			}
+			var arms []arm
+			var els *ast.BlockStmt
+			ok := true
+			cur := x
+			for {
+				if cur.Init != nil {
+					ok = false
+					break
+				}
+				arms = append(arms, arm{cur.Cond, cur.Body})
+				if cur.Else == nil {
+					break
+				}
+				if next, isIf := cur.Else.(*ast.IfStmt); isIf {
+					cur = next
+					continue
+				}
+				els, _ = cur.Else.(*ast.BlockStmt)
+				break
+			}
+			if !ok {
+				return s
+			}
+			if len(arms) >= 2 {
+				sw := &ast.SwitchStmt{Body: &ast.BlockStmt{}}
+				for _, a := range arms {
+					decRelabelBreaks(a.body)
+					sw.Body.List = append(sw.Body.List, &ast.CaseClause{List: []ast.Expr{a.cond}, Body: a.body.List})
+				}
+				if els != nil {
+					decRelabelBreaks(els)
+					sw.Body.List = append(sw.Body.List, &ast.CaseClause{Body: els.List})
+				}
+				return sw
+			}
+			if els != nil {
+				if b, isBin := x.Cond.(*ast.BinaryExpr); isBin && b.Op == token.NEQ {
+					return &ast.IfStmt{Cond: &ast.BinaryExpr{X: b.X, Op: token.EQL, Y: b.Y}, Body: els, Else: x.Body}
+				}
+				if u, isNot := x.Cond.(*ast.UnaryExpr); isNot && u.Op == token.NOT {
+					c := u.X
+					if p, isPar := c.(*ast.ParenExpr); isPar {
+						c = p.X
+					}
+					return &ast.IfStmt{Cond: c, Body: els, Else: x.Body}
+				}
+			}
+		case *ast.SwitchStmt:
+			if x.Tag == nil && x.Init == nil && len(x.Body.List) == 2 {
+				c0, _ := x.Body.List[0].(*ast.CaseClause)
+				c1, _ := x.Body.List[1].(*ast.CaseClause)
+				if c0 != nil && c1 != nil && len(c0.List) == 1 && c1.List == nil {
+					return conv(&ast.IfStmt{Cond: c0.List[0], Body: &ast.BlockStmt{List: c0.Body}, Else: &ast.BlockStmt{List: c1.Body}})
+				}
+			}
+		}
+		return s
+	}
+	decRewriteLists(body, func(l []ast.Stmt) []ast.Stmt {
+		for i, s := range l {
+			l[i] = conv(s)
+		}
+		return l
+	})
+}
+
 // normalise rewrites fd in place.
 func (nz *decNormaliser) normalise(fd *ast.FuncDecl) {
 	if fd == nil || fd.Body == nil {
@@ -491,5 +585,6 @@ func (nz *decNormaliser) normalise(fd *ast.FuncDecl) {
 			break
 		}
 	}
+	nz.canonIf(fd.Body)
 	decStripParens(fd.Body)
 }
